@@ -11,12 +11,13 @@ import ast
 
 from ..core import rule
 from ..model import AnalysisError
-from ..norm import Norm, expected
+from ..norm import Norm, expected, list_events
 from ..poly import Poly
 from ..paths import walk_no_nested
 from ..loops import loop_context, classify_iter
 from ..effects import is_call_to
 from .c04 import check_evaluator_slots
+from ..ceval import ceval, Unknown, specialise
 
 LEVEL = "other"
 
@@ -38,6 +39,56 @@ def restricted(ctx, f, tname, flag, slice_text):
     return False
 
 
+def slice_trace(f, tname, env):
+    """What the returned time variable is under concrete flags: (text of the last non-slicing definition, [slices applied
+    afterwards]).  Statements are followed in order; `if` tests and conditional expressions are decided with ceval under env;
+    None when an undecidable branch assigns the variable."""
+    base, slices = [None], [[]]
+
+    def assign(v):
+        v = specialise(v, env, None)
+        if isinstance(v, ast.Subscript):
+            inner = assign_inner(v.value)
+            if inner:
+                slices[0].append(ast.unparse(v.slice).replace(" ", ""))
+                return
+        base[0], slices[0] = ast.unparse(v), []
+
+    def assign_inner(v):
+        """v denotes the variable's previous value (the name itself, or a nested conditional slicing of it)"""
+        v = specialise(v, env, None)
+        if isinstance(v, ast.Name) and v.id == tname:
+            return True
+        if isinstance(v, ast.Subscript) and assign_inner(v.value):
+            slices[0].append(ast.unparse(v.slice).replace(" ", ""))
+            return True
+        if base[0] is None or ast.unparse(v) != base[0]:
+            # a fresh base expression inside the slicing, e.g. grid[1:] with grid the source
+            base[0], slices[0] = ast.unparse(v), []
+        return True
+
+    def block(stmts):
+        for st in stmts:
+            if isinstance(st, ast.Assign) and len(st.targets) == 1 and isinstance(st.targets[0], ast.Name) and st.targets[0].id == tname:
+                assign(st.value)
+            elif isinstance(st, ast.If):
+                try:
+                    taken = st.body if ceval(st.test, env, None) else st.orelse
+                except Unknown:
+                    if any(isinstance(x, ast.Name) and x.id == tname and isinstance(x.ctx, ast.Store) for y in st.body + st.orelse for x in ast.walk(y)):
+                        raise
+                    continue
+                block(taken)
+            elif isinstance(st, (ast.For, ast.While, ast.Try, ast.With)):
+                if any(isinstance(x, ast.Name) and x.id == tname and isinstance(x.ctx, ast.Store) for x in ast.walk(st)):
+                    raise Unknown("assignment in a loop")
+    try:
+        block(f.node.body)
+    except Unknown:
+        return None
+    return base[0], slices[0]
+
+
 @rule("R07.2", min_instances=10, desc="grid walkers: nodes/points enumerated in time order with the evaluator of the grid, and exactly one returned time per sampled point (also when the first/last point is left out)")
 def r07_2(ctx):
     P = ctx.prog
@@ -45,18 +96,22 @@ def r07_2(ctx):
     sc = ctx.scope(f)
     n = ctx.norm(f)
     # node list
-    ks = [d for d in sc.defs.get("ks", []) if d.kind == "assign"]
-    forms = [(Norm(None).key(d.value), [(ast.unparse(t), p) for t, p in sc.guards(d.stmt)]) for d in ks]
-    want = [(Norm(None).key(ast.parse("list(range(1, stage._method.N))", mode="eval").body), []),
-            (Norm(None).key(ast.parse("[0]+ks", mode="eval").body), [("include_first", True)]),
-            (Norm(None).key(ast.parse("ks+[-1]", mode="eval").body), [("include_last", True)])]
+    # the node list is whatever the evaluation loop iterates over
+    ev0 = [c for c in walk_no_nested(f.node) if is_call_to(c, "eval_at_control", "stage._method")]
+    lname = "ks"
+    if len(ev0) == 1 and sc.enclosing_loops(ev0[0]) and isinstance(sc.enclosing_loops(ev0[0])[-1][1], ast.Name):
+        lname = sc.enclosing_loops(ev0[0])[-1][1].id
+    forms = list_events(sc, lname, key=Norm(None).key)
+    want = [("set", Norm(None).key(ast.parse("list(range(1, stage._method.N))", mode="eval").body), []),
+            ("prepend", ["0"], [("include_first", True)]),
+            ("append", ["-1"], [("include_last", True)])]
     ctx.check(forms == want, "_grid_control node sequence", detail="nodes enumerated out of order or with the wrong end points", expected="[0 if include_first] + 1..N-1 + [-1 if include_last]", found=forms, fi=f,
               sample={"ks": [x[0] for x in forms]})
     ev = [c for c in walk_no_nested(f.node) if is_call_to(c, "eval_at_control", "stage._method")]
     ok = len(ev) == 1
     if ok:
         loops = sc.enclosing_loops(ev[0])
-        ok = len(loops) == 1 and ast.unparse(loops[0][1]) == "ks" and [ast.unparse(a) for a in ev[0].args] == ["stage", f.params[2], ast.unparse(loops[0][0])]
+        ok = len(loops) == 1 and ast.unparse(loops[0][1]) == lname and [ast.unparse(a) for a in ev[0].args] == ["stage", f.params[2], ast.unparse(loops[0][0])]
     ctx.check(ok, "_grid_control evaluates the expression at each node of the sequence", detail="evaluation", expected="for k in ks: stage._method.eval_at_control(stage, expr, k)", found="; ".join(ast.unparse(c) for c in ev), fi=f)
     app = [c for c in walk_no_nested(f.node) if is_call_to(c, "append", "sub_expr")]
     ok = len(app) == 1 and bool(ev) and sc.enclosing_loops(app[0]) and sc.enclosing_loops(app[0])[-1][2] is sc.enclosing_loops(ev[0])[-1][2]
@@ -64,12 +119,22 @@ def r07_2(ctx):
     rets = [r for r in walk_no_nested(f.node) if isinstance(r, ast.Return) and isinstance(r.value, ast.Tuple) and len(r.value.elts) == 2]
     main = [r for r in rets if isinstance(r.value.elts[0], ast.Name)]
     tname = main[0].value.elts[0].id if main else None
-    td = [d for d in sc.defs.get(tname, []) if d.kind == "assign"] if tname else []
-    ok = bool(td) and ast.unparse(td[0].value) == "stage._method.control_grid"
-    ctx.check(ok, "_grid_control times come from the control grid", detail="time source", expected="time = stage._method.control_grid", found=ast.unparse(td[0].value) if td else None, fi=f)
-    for flag, sl in (("include_first", "1:"), ("include_last", ":-1")):
-        ctx.check(tname is not None and restricted(ctx, f, tname, flag, sl), "_grid_control returns one time per sampled node (%s)" % flag, detail="time vector keeps the %s node although its value is left out" % ("first" if flag == "include_first" else "last"),
-                  expected="if not %s: time = time[%s]" % (flag, sl), found="time vector not restricted", fi=f)
+    traces = {}
+    for first in (True, False):
+        for last in (True, False):
+            traces[(first, last)] = slice_trace(f, tname, {"include_first": first, "include_last": last}) if tname else None
+    ok = all(t is not None and t[0] == "stage._method.control_grid" for t in traces.values())
+    ctx.check(ok, "_grid_control times come from the control grid", detail="time source", expected="time = stage._method.control_grid", found=str(traces.get((True, True))), fi=f)
+    for flag, sl, pos in (("include_first", "1:", 0), ("include_last", ":-1", 1)):
+        okf = True
+        for key, t in traces.items():
+            want = ([] if key[0] else ["1:"]) + ([] if key[1] else [":-1"])
+            if t is None or (sl in t[1]) != (sl in want) or t[1].count(sl) > 1:
+                okf = False
+        ctx.check(okf, "_grid_control returns one time per sampled node (%s)" % flag, detail="time vector keeps the %s node although its value is left out" % ("first" if flag == "include_first" else "last"),
+                  expected="if not %s: time = time[%s]" % (flag, sl), found="time vector not restricted" if not okf else "", fi=f)
+    ok_order = all(t is not None and t[1] == ([] if k_[0] else ["1:"]) + ([] if k_[1] else [":-1"]) for k_, t in traces.items())
+    ctx.check(ok_order, "_grid_control time vector is cut exactly as the node sequence is", detail="time vector and node sequence differ", expected="[1:] iff not include_first, [:-1] iff not include_last", found=str(traces), fi=f)
     g = P.own_method("Stage", "_grid_integrator")
     scg = ctx.scope(g)
     ng = ctx.norm(g)
@@ -93,7 +158,8 @@ def r07_2(ctx):
     if rets:
         e0 = rets[0].value.elts[0]
         tn = e0.id if isinstance(e0, ast.Name) else None
-    ok = tn is not None and restricted(ctx, g, tn, "include_last", ":-1")
+    tr_g = {last: slice_trace(g, tn, {"include_first": True, "include_last": last}) if tn else None for last in (True, False)}
+    ok = all(t is not None for t in tr_g.values()) and tr_g[True][1] == [] and tr_g[False][1] == [":-1"] and tr_g[True][0] == tr_g[False][0]
     ctx.check(ok, "_grid_integrator returns one time per sampled point (include_last)", detail="time vector keeps the final point although its value is left out",
               expected="if not include_last: time = time[:-1]", found="time vector not restricted", fi=g)
     h = P.own_method("Stage", "_grid_integrator_roots")
